@@ -25,7 +25,7 @@ class C07(Check):
     outside = ["tolerances finer than 1/8 (polynomial degree)", "N beyond the bound"]
     bounds = {
         "quick": {"N": [2, 3], "beta_prev": [0, 0.5], "tol": [0.25]},
-        "thorough": {"N": [3, 4], "beta_prev": [0, 0.25, 0.5], "tol": [0.25, 0.125], "ramp_rates": [1, 2]},
+        "thorough": {"N": [3, 4], "beta_prev": [0, 0.5], "tol": [0.25, 0.125], "ramp_rates": [1, 2]},
     }
 
     def configs(self, tier):
